@@ -169,6 +169,44 @@ fn te_group<P: te::TECurveConfig>(t: &mut Tally, name: &str) where P::BaseField:
     }
 }
 
+/// coordinate recovery (C11): for EVERY base-field element the helpers return both roots in the documented order
+/// (smaller first as integers), `greatest` selects the larger one, and None exactly when no point has that coordinate
+fn sw_recover<P: sw::SWCurveConfig>(t: &mut Tally, name: &str) where P::BaseField: PrimeField {
+    let pts = sw_points::<P>();
+    for x in all::<P::BaseField>() {
+        let ys: Vec<P::BaseField> = pts.iter().filter_map(|p| p.filter(|(px, _)| *px == x).map(|(_, y)| y)).collect();
+        match sw::Affine::<P>::get_ys_from_x_unchecked(x) {
+            None => t.check(ys.is_empty(), || format!("{name}: get_ys_from_x_unchecked({x}) = None but points exist")),
+            Some((lo, hi)) => {
+                t.check(ys.contains(&lo) && ys.contains(&hi) && lo == -hi && lo.into_bigint() <= hi.into_bigint(), || format!("{name}: get_ys_from_x_unchecked({x}) = ({lo}, {hi})"));
+                let g = sw::Affine::<P>::get_point_from_x_unchecked(x, true).map(|p| p.y);
+                let l = sw::Affine::<P>::get_point_from_x_unchecked(x, false).map(|p| p.y);
+                t.check(g == Some(hi) && l == Some(lo), || format!("{name}: get_point_from_x_unchecked({x}, greatest) picks the wrong root"));
+            },
+        }
+    }
+}
+fn te_recover<P: te::TECurveConfig>(t: &mut Tally, name: &str) where P::BaseField: PrimeField {
+    let pts = te_points::<P>();
+    for y in all::<P::BaseField>() {
+        let xs: Vec<P::BaseField> = pts.iter().filter(|p| p.1 == y).map(|p| p.0).collect();
+        match te::Affine::<P>::get_xs_from_y_unchecked(y) {
+            None => t.check(xs.is_empty(), || format!("{name}: get_xs_from_y_unchecked({y}) = None but points exist")),
+            Some((lo, hi)) => {
+                t.check(xs.contains(&lo) && xs.contains(&hi) && lo == -hi && lo.into_bigint() <= hi.into_bigint(), || format!("{name}: get_xs_from_y_unchecked({y}) = ({lo}, {hi})"));
+                let g = te::Affine::<P>::get_point_from_y_unchecked(y, true).map(|p| p.x);
+                let l = te::Affine::<P>::get_point_from_y_unchecked(y, false).map(|p| p.x);
+                t.check(g == Some(hi) && l == Some(lo), || format!("{name}: get_point_from_y_unchecked({y}, greatest) picks the wrong root"));
+            },
+        }
+    }
+}
+pub fn recover(t: &mut Tally) {
+    sw_recover::<Sw13>(t, "y^2=x^3+2/F13");
+    sw_recover::<Sw101c>(t, "y^2=x^3+x+3/F101");
+    te_recover::<Te13>(t, "3x^2+y^2=1+8x^2y^2/F13");
+}
+
 pub fn group_law(t: &mut Tally) {
     sw_group::<Sw13>(t, "y^2=x^3+2/F13");
     sw_group::<Sw101c>(t, "y^2=x^3+x+3/F101(cofactor 3)");
@@ -365,6 +403,51 @@ pub fn serialization(t: &mut Tally) {
     let (ta, td) = (<Te13 as te::TECurveConfig>::COEFF_A, <Te13 as te::TECurveConfig>::COEFF_D);
     let pts: Vec<te::Affine<Te13>> = te_points::<Te13>().iter().map(|p| te::Affine::new_unchecked(p.0, p.1)).collect();
     codec(t, "Te13", &pts, &|p| te_mul(5, (p.x, p.y), ta, td) == (<Te13 as ark_ec::CurveConfig>::BaseField::zero(), <Te13 as ark_ec::CurveConfig>::BaseField::one()));
+    // 8-bit modulus (241): no spare bit in the top byte, flags spill into an extra byte
+    let (ta, td) = (<Te241 as te::TECurveConfig>::COEFF_A, <Te241 as te::TECurveConfig>::COEFF_D);
+    let pts: Vec<te::Affine<Te241>> = te_points::<Te241>().iter().map(|p| te::Affine::new_unchecked(p.0, p.1)).collect();
+    t.check(pts.len() == 232, || format!("Te241: {} points, expected 232", pts.len()));
+    codec(t, "Te241", &pts, &|p| te_mul(29, (p.x, p.y), ta, td) == (<Te241 as ark_ec::CurveConfig>::BaseField::zero(), <Te241 as ark_ec::CurveConfig>::BaseField::one()));
+    let pts: Vec<sw::Affine<mnt4a::G1C>> = sw_points::<mnt4a::G1C>().iter().map(|p| sw_aff::<mnt4a::G1C>(*p)).collect();
+    t.check(pts.len() == 257, || format!("Sw241: {} points, expected 257", pts.len()));
+    codec(t, "Sw241", &pts, &|_| true);
+    // cubic extension with flags (the flag byte travels in the last coordinate): every element x every flag value
+    {
+        use ark_ec::models::short_weierstrass::SWFlags;
+        use ark_ec::models::twisted_edwards::TEFlags;
+        use ark_serialize::{CanonicalDeserializeWithFlags, CanonicalSerializeWithFlags, EmptyFlags, Flags};
+        let mut all3 = vec![];
+        for a in 0..7u64 { for b in 0..7u64 { for c in 0..7u64 { all3.push(F343::new(F7::from(a), F7::from(b), F7::from(c))); } } }
+        for x in &all3 {
+            for f in [SWFlags::YIsNegative, SWFlags::YIsPositive, SWFlags::PointAtInfinity] {
+                let mut buf = vec![];
+                let ok = x.serialize_with_flags(&mut buf, f).is_ok() && buf.len() == x.serialized_size_with_flags::<SWFlags>();
+                let back = F343::deserialize_with_flags::<_, SWFlags>(&buf[..]);
+                t.check(ok && matches!(&back, Ok((y, g)) if y == x && g.u8_bitmask() == f.u8_bitmask()), || format!("F7^3: serialize_with_flags round trip of {x} with SW flag mask {:#x}", f.u8_bitmask()));
+            }
+            for f in [TEFlags::XIsPositive, TEFlags::XIsNegative] {
+                let mut buf = vec![];
+                let ok = x.serialize_with_flags(&mut buf, f).is_ok() && buf.len() == x.serialized_size_with_flags::<TEFlags>();
+                let back = F343::deserialize_with_flags::<_, TEFlags>(&buf[..]);
+                t.check(ok && matches!(&back, Ok((y, g)) if y == x && g.u8_bitmask() == f.u8_bitmask()), || format!("F7^3: serialize_with_flags round trip of {x} with TE flag mask {:#x}", f.u8_bitmask()));
+            }
+            let mut buf = vec![];
+            let ok = x.serialize_with_flags(&mut buf, EmptyFlags).is_ok() && buf.len() == 3;
+            t.check(ok && F343::deserialize_compressed(&buf[..]).ok() == Some(*x), || format!("F7^3: plain round trip of {x}"));
+        }
+        // uniqueness: every 3-byte string that decodes re-encodes to itself (2^24 strings)
+        let mut n = 0u32;
+        for code in 0..(1u32 << 24) {
+            let bytes = [(code & 0xff) as u8, (code >> 8) as u8, (code >> 16) as u8];
+            if let Ok(x) = F343::deserialize_compressed(&bytes[..]) {
+                let mut out = vec![];
+                t.check(x.serialize_compressed(&mut out).is_ok() && out == bytes, || format!("F7^3: bytes {bytes:?} decode but re-encode to {out:?}"));
+                n += 1;
+            }
+        }
+        t.check(n == 343, || format!("F7^3: {n} of 2^24 three-byte strings decode, expected 343"));
+        t.cases += 1 << 24;
+    }
     // field elements of toy extension fields: round trip and uniqueness for all byte strings
     let mut n = 0u32;
     for code in 0..65536u32 {
